@@ -405,3 +405,69 @@ def cmp_truth(op, a_is_x, labels, neg):
     if op == "lt":
         return not val
     return None
+
+
+# ---------------------------------------------------------------------------
+# standard projection for `?`-style sequential code
+
+
+IGNORED_EXP = ("anyhow!", "bail!", "format!", "format_args!", "ensure!", "matches!")
+
+
+def in_ignored_expansion(body, bb):
+    e = body.blocks[bb]["t"].get("exp")
+    if not e:
+        return False
+    last = e.split("::")[-1]
+    return last in TRACING_EXP or last in IGNORED_EXP
+
+
+def std_edge(body, extra=None, strict=True):
+    """edge_sym that understands `?` (Break edge -> '!err'), await polls (silent), tracing/format
+    expansions (silent); `extra(a, b, subj, labels, o)` may claim other switches first; any other
+    switch yields '?cond(..)' when strict (so it shows up as an unexpected word)."""
+    def edge_sym(a, b, subj, labels, o):
+        if extra is not None:
+            x = extra(a, b, subj, labels, o)
+            if x is not None:
+                return x
+        lab = "|".join(sorted(labels))
+        if subj[0] == "discr":
+            r = strip_identity(subj[1])
+            if r[0] == "call" and name_matches(r[1], "Try::branch"):
+                return "!err" if lab == "Break" else []
+            if r[0] == "call" and name_matches(r[1], "future::future::Future::poll") and "await" in (body.blocks[a]["t"].get("exp") or ""):
+                return []
+        if in_ignored_expansion(body, a):
+            return []
+        if strict:
+            return f"?cond({show(subj)[:50]})={lab}"
+        return []
+    return edge_sym
+
+
+def seq_words(body, call_sym, stmt_sym=None, extra_edge=None, strict=True, **kw):
+    return words_of(body, call_sym, std_edge(body, extra_edge, strict), stmt_sym, **kw)
+
+
+def ok_words(ws):
+    """words not containing an error exit"""
+    return {w for w in ws if "!err" not in w}
+
+
+def const_of(t):
+    """constant value string of a term (literal, or evaluated named constant), else None"""
+    s = strip_identity(t)
+    if s[0] == "const":
+        return s[1]
+    if s[0] == "named":
+        return s[2] if len(s) > 2 and s[2] is not None else None
+    return None
+
+
+def int_of(t):
+    v = const_of(t)
+    if v is None:
+        return None
+    m = __import__("re").match(r"^(-?\d+)(?:_[iu](?:8|16|32|64|128|size))?$", v)
+    return int(m.group(1)) if m else None
